@@ -1,0 +1,37 @@
+//go:build verif
+
+package grace
+
+import "time"
+
+// VerifSnapshot copies the process-global grace expectations (verification harness only).
+func VerifSnapshot() map[string]map[Action]time.Time {
+	r := DefaultGraceExpectations
+	r.RLock()
+	defer r.RUnlock()
+	out := make(map[string]map[Action]time.Time, len(r.controllerCache))
+	for k, tc := range r.controllerCache {
+		m := make(map[Action]time.Time, len(tc))
+		for a, t := range tc {
+			m[a] = *t
+		}
+		out[k] = m
+	}
+	return out
+}
+
+// VerifRestore replaces the process-global grace expectations with a snapshot.
+func VerifRestore(s map[string]map[Action]time.Time) {
+	r := DefaultGraceExpectations
+	r.Lock()
+	defer r.Unlock()
+	r.controllerCache = make(map[string]timeCache, len(s))
+	for k, m := range s {
+		tc := make(timeCache, len(m))
+		for a, t := range m {
+			t := t
+			tc[a] = &t
+		}
+		r.controllerCache[k] = tc
+	}
+}
